@@ -20,7 +20,7 @@ from .c17 import rand_identity, build, judge, mc
 
 PID = "C18"
 BAD_KINDS = ["random", "empty", "short_body", "tiny_body", "nontext_sn", "nontext_name", "no_separator", "nonhex_type", "bad_padding",
-             "misaligned", "trunc", "v3_garbage", "xml_plain", "xml_no_port", "xml_port_text", "xml_port_open", "xml_port_refused", "marker_only"]
+             "misaligned", "trunc", "v3_garbage", "xml_plain", "xml_no_port", "xml_port_text", "xml_port_open", "xml_port_refused", "xml_port_answer", "marker_only"]
 # not used: a name-length byte that overruns the body - the code reports the device with the name cut short; the property does not say
 # whether such a reply counts as malformed, so the check does not generate it
 
@@ -84,7 +84,7 @@ def bad_reply(kind, rng, ip):
         return b"<msg><body><device ip='%s'/></body></msg>" % ip.encode()
     if kind == "xml_port_text":
         return b"<msg><body><device port='abc'/></body></msg>"
-    if kind in ("xml_port_open", "xml_port_refused"):
+    if kind in ("xml_port_open", "xml_port_refused", "xml_port_answer"):
         return b"<msg><body><device port='%d'/></body></msg>" % rng.choice([80, 6444])
     raise ValueError(kind)
 
@@ -134,7 +134,7 @@ def realise(ctx, scn, kinds_cycle):
             kind = next(kinds_cycle)
             if kind == "xml_port_refused":
                 refuse = True
-            if kind == "xml_port_open" and refuse:
+            if kind in ("xml_port_open", "xml_port_answer") and refuse:
                 kind = "xml_plain"
             bad_kinds.append(kind)
             data = bad_reply(kind, rng, ip)
@@ -160,9 +160,14 @@ def run(ctx: Ctx) -> int:
     for s in scn + extra:
         plan, kinds, refuse = realise(ctx, s, cyc)
 
-        def tcp(loop, net, refuse=refuse):
+        answer = ctx.rng.choice([b"not xml at all <<<", b"<a><b></a>", b"<msg><body><device sn='1'/></body></msg>", b"\xff\xfe\x00binary", b""]) if "xml_port_answer" in kinds else None
+
+        def tcp(loop, net, refuse=refuse, answer=answer):
             if refuse:
                 net.connect_mode = "refuse"
+            if answer:
+                # the V1 responder's TCP port answers the device-info query with something (malformed XML, text, binary, an XML document)
+                net.on_bytes = lambda tr, data: loop.call_later(0.01, tr.feed, answer)
         # the listen window and the target (limited broadcast, a directed subnet broadcast, a multicast group) are the caller's choice: several hosts answer each
         tgt = ["255.255.255.255", "10.255.255.255", "255.255.255.255", "192.168.1.255", "224.0.0.251"][len(vectors) % 5]
         v = disc.run_discovery(plan, tcp_devices=tcp, timeout=[5, 1, 2, 0.8][len(vectors) % 4], target=tgt)
@@ -184,7 +189,7 @@ def run(ctx: Ctx) -> int:
             ident = rand_identity(rng, typ=rng.choice([0xA1, 0xAC, 0xB8, 0xE2, rng.randrange(256)]), port=6444)
             ip = "10.0.8.%d" % (j + 1)
             plan.append((0.2 * (j + 1), ip, 6445, build(rng, ident, ip, 2)))
-        plan.append((0.25, "10.0.8.200", 6445, bad_reply(order[k % len(order)] if order[k % len(order)] not in ("xml_port_open", "xml_port_refused") else "random", rng, "10.0.8.200")))
+        plan.append((0.25, "10.0.8.200", 6445, bad_reply(order[k % len(order)] if order[k % len(order)] not in ("xml_port_open", "xml_port_refused", "xml_port_answer") else "random", rng, "10.0.8.200")))
         plan.sort(key=lambda x: x[0])
 
         def tcp2(loop, net, k=k):
